@@ -106,6 +106,11 @@ type Transport struct {
 	// recording it (as a routing / gateway HTTPClient may do with the request
 	// that belongs to this one call): a later call must not see the rewrite.
 	MutateURL bool
+	// NoCloseReq: the transport neither reads on nor closes the request body
+	// once the handler has returned (the RoundTripper contract only promises
+	// that the body is closed eventually); used by hostile scenarios in which
+	// nothing but the library itself can release a blocked Send.
+	NoCloseReq bool
 	// ReqChunk is the size of the transport's reads of the request body in
 	// eager mode (default 32 KiB).  A small value makes the transport take each
 	// message the client writes in several pieces, so that a close of the
@@ -532,7 +537,9 @@ func (c *call) serve(rw http.ResponseWriter, sreq *http.Request) {
 		c.finishResponse()
 		close(c.done)
 		c.serverCancel()
-		if c.t.SyncCloseReq {
+		if c.t.NoCloseReq {
+			// a transport that leaves the request body alone once the response is over
+		} else if c.t.SyncCloseReq {
 			c.closeClientReqBody("handler-done")
 		} else {
 			go func() {
